@@ -37,8 +37,13 @@ def gen_dhw_building(rng):
         e = v()
         amb = [x * 2 for x in e]
         b.add("CONSUMO", id=1, service="ACS", carrier="ELECTRICIDAD", values=e)
-        b.add("CONSUMO", id=1, service="ACS", carrier="EAMBIENTE", values=amb,
-              comment="CTEEPBD_EXCLUYE_SCOP_ACS" if rng.random() < 0.15 else "")
+        tag = "CTEEPBD_EXCLUYE_SCOP_ACS" if rng.random() < 0.2 else ""
+        b.add("CONSUMO", id=1, service="ACS", carrier="EAMBIENTE", values=amb, comment=tag)
+        if rng.random() < 0.4:
+            # the ambient heat production declared by hand (all of it or part of it), with or without the tag of the consumption
+            b.add("PRODUCCION", id=1, source="EAMBIENTE", values=[x * rng.choice([Fraction(1, 2), 1]) for x in amb],
+                  comment=rng.choice([tag, tag, "CTEEPBD_EXCLUYE_SCOP_ACS", ""]))
+            b.tags.add("declared_ambient_production")
         demand = add(add(demand, e), amb)
         if mix == "heat_pump_pv_aux":
             b.add("PRODUCCION", id=2, source="EL_INSITU", values=[x * rng.choice([Fraction(1, 2), 1, 2]) for x in e])
